@@ -695,7 +695,7 @@ def plan(quick: bool) -> Tuple[List[Tuple[Any, ...]], List[Tuple[Any, ...]], Dic
         pspaces = [(2, 1, (0, 1)), (3, 1, (0, 1))]
     else:
         spaces = [(1, 2, (0, 1, 2), True, True, 1), (2, 2, (0, 1, 2), True, True, 1), (3, 1, (0, 1, 2), True, True, 2),
-                  (3, 2, (0, 1, 2), True, False, 16), (4, 1, (0, 1, 2), True, False, 4), (4, 2, (0, 1), False, False, 0),
+                  (3, 2, (0, 1, 2), True, False, 16), (4, 1, (0, 1, 2), False, False, 4), (4, 2, (0, 1), False, False, 0),
                   (5, 1, (0, 1), False, False, 4)]
         pspaces = [(2, 2, (0, 1, 2)), (3, 1, (0, 1, 2)), (4, 1, (0, 1))]
     desc = []
@@ -709,9 +709,9 @@ def plan(quick: bool) -> Tuple[List[Tuple[Any, ...]], List[Tuple[Any, ...]], Dic
         if n == 4 and k == 2:
             # two names on four layers: only the hierarchies with one childless layer and an equal-priority pair
             hs = [h for h in hs if len({p for ps in h[1] for p in ps}) == 3 and "equal-priority-parents" in ri.shape_tags(*h)]
-            note = " (single-sink hierarchies with an equal-priority parent pair only; NOT-INHERITED sets with <= 2 entries)"
-            nsh = 4
-            mx = 2
+            note = " (single-sink hierarchies with an equal-priority parent pair only; NOT-INHERITED sets with <= 1 entry)"
+            nsh = 2
+            mx = 1
         desc.append(f"{n} layers x {k} name(s): {len(hs)} hierarchies{note}, placement kinds {list(kinds)}, "
                     f"{'with' if skew else 'without'} partial exclusion lists, "
                     f"{'all 19 categories' if full else 'the 11 core categories'}")
